@@ -215,3 +215,45 @@ void h_bitrw64(void) {
   if (k == 64) CQV_CANARY("64-bit value");
   CQV_CANARY("bit reader/writer 64 harness end");
 }
+
+/* ---- sequence level (C11 + C12), constant width, every count 0..CQV_SEQ_MAX (whole groups, partial final
+ * group, empty): bitunpack_32(bitpack_32(v)) == v & mask, both byte counts == ceil(count*w/8), buffers of
+ * that size, emitted bytes == independent spec encoder over the zero-padded sequence (padding bits
+ * of the final byte are zero), independent spec decoder over the whole stream returns the values.
+ * Real pack8/unpack8 are executed (no contracts); loops unwound completely => bounded in count only. */
+#ifndef CQV_SEQ_MAX
+#define CQV_SEQ_MAX 15
+#endif
+void h_seq_roundtrip(void) {
+  size_t count = nondet_size_t();
+  __CPROVER_assume(count <= CQV_SEQ_MAX);
+  /* fixed-size arrays: exact-size bounds for every count are the business of the loop-contract jobs
+   * (c08_bitunpack_32_w*, c11_bitpack_32_w*); symbolic-size heap objects exhaust 8 GB here */
+  uint32_t v[CQV_SEQ_MAX + 1], out[CQV_SEQ_MAX + 1];
+  size_t n = SPEC_BP_PACKED_SIZE(count, CQV_W);
+  uint8_t buf[(CQV_SEQ_MAX * 32 + 7) / 8 + 1];
+  uint32_t vm[CQV_SEQ_MAX + 8];
+  for (size_t i = 0; i < CQV_SEQ_MAX + 8; i++) {
+    if (i < count) { v[i] = nondet_u32(); out[i] = nondet_u32(); vm[i] = v[i] & SPEC_BP_MASK32(CQV_W); }
+    else vm[i] = 0;
+  }
+  for (size_t i = 0; i < (CQV_SEQ_MAX * 32 + 7) / 8; i++) if (i < n) buf[i] = nondet_u8();
+  size_t wr = carquet_bitpack_32(v, count, CQV_W, buf);
+  __CPROVER_assert(wr == n, "bitpack_32 reports carquet_packed_size bytes");
+  __CPROVER_assert(n == carquet_packed_size(count, CQV_W), "spec size == carquet_packed_size");
+  size_t g = nondet_size_t();            /* ghost value index; guards instead of assume keep count == 0 alive */
+  if (g >= count) g = 0;
+#if CQV_W > 0
+  size_t b = nondet_size_t();            /* ghost byte index */
+  if (b >= n) b = 0;
+  __CPROVER_assert(n == 0 || buf[b] == spec_bp_pack_byte(vm, CQV_W, (unsigned)b), "byte b of the sequence equals the spec encoder's byte (zero padding)");
+  __CPROVER_assert(count == 0 || spec_bp_unpack(buf, CQV_W, (unsigned)g) == vm[g], "spec decoder over the whole stream returns value g");
+#endif
+  size_t rd = carquet_bitunpack_32(buf, count, CQV_W, out);
+  __CPROVER_assert(rd == wr, "bitunpack_32 consumed == bitpack_32 produced");
+  __CPROVER_assert(count == 0 || out[g] == vm[g], "value g survives bitpack_32/bitunpack_32");
+  if ((count & 7) != 0) CQV_CANARY("sequence with a partial final group");
+  if (count == CQV_SEQ_MAX) CQV_CANARY("longest sequence");
+  if (count == 0) CQV_CANARY("empty sequence");
+  CQV_CANARY("sequence roundtrip harness end");
+}
